@@ -47,7 +47,7 @@ def gen_coords(rng, n):
             if ideal:
                 while True:
                     p = Q.rsphere(rng, dim)
-                    if p[0] != 1:   # not the half-space point at infinity
+                    if p[0] <= F(9, 10):   # at bounded distance from the half-space point at infinity
                         break
             else:
                 p = Q.rball(rng, dim)
@@ -121,6 +121,10 @@ def judge_coords(inp, obs, lr):
             mv = Q.decf(res["ok"])
             iv = np.array(obs[m][i])
             tol = 1e-6 if inp["ideal"] else 1e-9
+            if inp["ideal"] and m == "halfspace":
+                # ideal points lose half their digits in kleinian_to_poincare (sqrt of a rounding error) and the
+                # half-space chart amplifies that by ~(1+|h|^2) near its point at infinity
+                tol = 1e-6 * (1 + float(np.max(np.abs(mv))) ** 2)
             if m == "projective" or (m == "hyperboloid" and inp["ideal"]):
                 ok = proj_close(iv, mv, tol)   # lightlike vectors have no hyperboloid normalisation; only the ray matters
             else:
@@ -176,7 +180,10 @@ def judge_dist(inp, obs, lr):
         return {"expected": f"finite distance, cosh d = {c}", "observed": d, "tags": {"nan": True, "self": inp["kind"] != "pair"},
                 "property_failure": True}
     if abs(math.cosh(d) - c) > 1e-9 * (1 + c) or abs(d - math.acosh(max(c, 1.0))) > 1e-6:
-        return {"expected": {"cosh_d": c, "d": math.acosh(max(c, 1.0))}, "observed": {"d": d, "cosh_d": math.cosh(d)}, "tags": {}}
+        # the model value is the exact closed-form metric of the two points (theorems metric_*), so a reported
+        # distance that differs from it is the property failing on the real code, not just a broken tie
+        return {"expected": {"cosh_d": c, "d": math.acosh(max(c, 1.0))}, "observed": {"d": d, "cosh_d": math.cosh(d)},
+                "tags": {"kind": inp["kind"], "opposite_sign": (F(inp["s"]) < 0) != (F(inp["t"]) < 0)}, "property_failure": True}
     return None
 
 
@@ -195,18 +202,31 @@ def fball(rng, dim, shape, rmax):
 def gen_rt(rng, n):
     for _ in range(n):
         dim = rng.choice([1, 2, 2, 3, 4, 5])
-        shape = rng.choice([[], [3], [2, 2], [1, 2], [2, 1, 2]])
-        yield {"dim": dim, "shape": shape, "klein": fball(rng, dim, shape, 0.999)}
+        shape = rng.choice([[], [3], [2, 2], [1, 2], [2, 1, 2], [3, 3], [4, 1]])
+        ideal = rng.random() < 0.25
+        if ideal:
+            pts = []
+            for _ in range(int(np.prod(shape)) if shape else 1):
+                while True:
+                    v = [rng.gauss(0, 1) for _ in range(dim)]
+                    nv = math.sqrt(sum(x * x for x in v))
+                    if nv > 1e-3 and abs(v[0] / nv - 1) > 0.05:     # away from the half-space point at infinity
+                        break
+                pts.append([x / nv for x in v])
+        else:
+            pts = fball(rng, dim, shape, 0.999)
+        yield {"dim": dim, "shape": shape, "klein": pts, "ideal": ideal}
 
 
 def run_rt(inp):
     k = np.array(inp["klein"]).reshape(tuple(inp["shape"]) + (inp["dim"],))
     P = H.Point(k, model="klein")
     worst, where = 0.0, None
-    for m1 in MODELS:
+    models = [m for m in MODELS if not (inp.get("ideal") and m == "hyperboloid")]   # lightlike: no hyperboloid point
+    for m1 in models:
         c1 = np.array(P.coords(m1), dtype=float)
         P1 = H.Point(c1.copy(), model=m1)
-        for m2 in MODELS:
+        for m2 in models:
             c2 = np.array(P1.coords(m2), dtype=float)
             P2 = H.Point(c2.copy(), model=m2)
             k2 = np.array(P2.coords("klein"), dtype=float)
@@ -223,7 +243,7 @@ def judge_rt(inp, obs, lr):
         return {"expected": "round trip", "observed": obs, "tags": {"exc": obs["exc"]}}
     if obs["worst"] > 1e-6:
         return {"expected": "same Klein coordinates after m1 -> m2 -> klein (tol 1e-6)", "observed": obs,
-                "tags": {"pair": obs["where"]}}
+                "tags": {"pair": obs["where"], "ideal": bool(inp.get("ideal"))}}
     return None
 
 
@@ -231,7 +251,9 @@ def judge_rt(inp, obs, lr):
 def gen_metric(rng, n):
     for _ in range(n):
         dim = rng.choice([1, 2, 3, 4, 5])
-        yield {"dim": dim, "pts": fball(rng, dim, [3], 0.99)}
+        # each point is stored through projective coordinates with its own non-zero scale of either sign
+        scales = [rng.choice([-1, 1]) * rng.uniform(0.1, 10) if rng.random() < 0.5 else 1.0 for _ in range(3)]
+        yield {"dim": dim, "pts": fball(rng, dim, [3], 0.99), "scales": scales}
 
 
 def closed_forms(P, Qp):
@@ -248,7 +270,7 @@ def closed_forms(P, Qp):
 
 
 def run_metric(inp):
-    pts = [H.Point(np.array(p), model="klein") for p in inp["pts"]]
+    pts = [H.Point(np.array([1.0] + list(p)) * s, model="projective") for p, s in zip(inp["pts"], inp.get("scales", [1, 1, 1]))]
     a, b, c = pts
     d = lambda u, v: float(np.asarray(u.distance(v)).reshape(-1)[0])
     res = {"ab": d(a, b), "ba": d(b, a), "bc": d(b, c), "ac": d(a, c), "aa": d(a, a), "bb": d(b, b), "cc": d(c, c)}
@@ -284,15 +306,15 @@ def judge_metric(inp, obs, lr):
 
 CLAUSES = [
     Clause("coords_corr", "corr", gen_coords, run_coords, judge_coords, lean=lean_coords2,
-           site="hyperbolic.Point.coords", budget={"quick": 150, "thorough": 4000},
+           site="hyperbolic.Point.coords", budget={"quick": 150, "thorough": 20000},
            what="Point(d, model=m1).coords(m2) for all m2 vs Lean setX/getX executed over ℚ (rational Poincaré points, ideal points, composite shapes)"),
     Clause("dist_corr", "corr", gen_dist, run_dist, judge_dist, lean=lean_dist,
-           site="hyperbolic.Point.distance", budget={"quick": 200, "thorough": 5000},
+           site="hyperbolic.Point.distance", budget={"quick": 200, "thorough": 20000},
            what="cosh(Point.distance) vs Lean coshDistClamped over ℚ, incl. d(x,x) and rescaled representatives of either sign"),
     Clause("roundtrip_oracle", "oracle", gen_rt, run_rt, judge_rt, site="hyperbolic.Point.coords",
-           budget={"quick": 60, "thorough": 1500},
+           budget={"quick": 60, "thorough": 8000},
            what="float points: coords(m1) -> Point(.,m1) -> coords(m2) -> Point(.,m2) -> klein, all 25 ordered pairs, dims 1-5, shapes rank 0-3"),
     Clause("metric_oracle", "oracle", gen_metric, run_metric, judge_metric, site="hyperbolic.Point.distance",
-           budget={"quick": 300, "thorough": 10000},
+           budget={"quick": 300, "thorough": 60000},
            what="metric laws (finite, >=0, d(x,x)=0, symmetry, triangle), closed-form metrics of each model, composite = per unit"),
 ]
